@@ -209,8 +209,8 @@ func TestC01Sweep(t *testing.T) {
 		}
 		// byte fast paths with large pattern counts (constant / heavily biased / long inputs)
 		for _, q := range []gen.Seq{{Family: "constant", N: 1000000, A: 1}, {Family: "biased", N: 1000000, Seed: 3, F: 0.9}, {Family: "biased", N: 1000000, Seed: 4, F: 0.05},
-			{Family: "periodic", N: 1000000, Bits: "00010001"}, {Family: "uniform", N: 4800000, Seed: 5}} {
-			for _, m := range []int{4, 8} {
+			{Family: "periodic", N: 1000000, Bits: "00010001"}, {Family: "periodic", N: 1000000, Bits: "01"}, {Family: "prefixconst", N: 1000000, A: 0, Seed: 8, Pos: []int{400000}}, {Family: "uniform", N: 4800000, Seed: 5}} {
+			for _, m := range []int{2, 4, 8} {
 				cases = append(cases, statCase{Test: "pokerBytes", M: m, Seq: q})
 			}
 			cases = append(cases, statCase{Test: "monobitBytes", Seq: q})
